@@ -235,6 +235,11 @@ func traceLine(work, line string, lineNo int, r *rng, waterEvery int) {
 				gg := *g
 				denitCase("trace", &gg)
 			}
+			// peat soils: run.go calls Denitmo instead (three 30 cm blocks): replayed on the day's pre-call state
+			if nitroEvery > 0 && subd == day.steps && g.BART[0][0] == 'H' && g.N >= 9 && r.intn(nitroEvery) == 0 {
+				gg := *g
+				denitmoCase("trace", &gg)
+			}
 		case "evatra":
 			day = dayAcc{zeit: zeit, s0: storage(g, 0), fluss0: g.FLUSS0, grw0: g.GRW}
 			// C01: nothing creates or removes water between the end of one day and the start of the next
